@@ -148,6 +148,8 @@ def run_driver(binary, test, env, scratch, tag, timeout=3600, args=(), crash_pro
     """Run one Go driver test; returns its parsed result JSON. crash_prop: a death of the process inside go-perun code
     (see library_crash) is returned as a monitor violation of that property instead of being inconclusive."""
     out = os.path.join(scratch, "res-%s.json" % tag)
+    if os.environ.get("VERIF_TIER", "quick") == "quick":
+        timeout = min(timeout, 900)  # no quick driver needs more than ~2 min; a driver that hangs is inconclusive after 15
     e = go_env()
     e.update({k: str(v) for k, v in env.items()})
     e["VERIF_OUT"] = out
